@@ -71,3 +71,101 @@ pub fn err_in_ulps(x: f64, num: i128, den: i128, ulp_ref: f64) -> f64 {
     let df = xf - (r as f64 / den as f64);
     ((di + df) / ulp_ref).abs()
 }
+
+// ---------------------------------------------------------------------------------------------
+// Exact comparison of a float against a rational, via a minimal 256-bit unsigned integer.
+
+#[derive(Clone, Copy, PartialEq, Eq, Debug)]
+pub struct U256 {
+    pub hi: u128,
+    pub lo: u128,
+}
+impl U256 {
+    pub fn mul(a: u128, b: u128) -> U256 {
+        let (a1, a0) = (a >> 64, a & u64::MAX as u128);
+        let (b1, b0) = (b >> 64, b & u64::MAX as u128);
+        let p00 = a0 * b0;
+        let p01 = a0 * b1;
+        let p10 = a1 * b0;
+        let p11 = a1 * b1;
+        let mid = (p00 >> 64) + (p01 & u64::MAX as u128) + (p10 & u64::MAX as u128);
+        let lo = (p00 & u64::MAX as u128) | (mid << 64);
+        let hi = p11 + (p01 >> 64) + (p10 >> 64) + (mid >> 64);
+        U256 { hi, lo }
+    }
+    /// shift left; None when bits would be lost
+    pub fn shl(self, k: u32) -> Option<U256> {
+        if k == 0 {
+            return Some(self);
+        }
+        if k >= 256 {
+            return if self.hi == 0 && self.lo == 0 { Some(self) } else { None };
+        }
+        if k >= 128 {
+            if self.hi != 0 || (k > 128 && self.lo >> (256 - k) != 0) {
+                return None;
+            }
+            return Some(U256 { hi: self.lo << (k - 128), lo: 0 });
+        }
+        if self.hi >> (128 - k) != 0 {
+            return None;
+        }
+        Some(U256 { hi: (self.hi << k) | (self.lo >> (128 - k)), lo: self.lo << k })
+    }
+    pub fn cmp(&self, o: &U256) -> core::cmp::Ordering {
+        (self.hi, self.lo).cmp(&(o.hi, o.lo))
+    }
+}
+
+/// Exact ordering of the finite float x against the rational num/den (den > 0).
+pub fn cmp_float_rational(x: f64, num: i128, den: i128) -> core::cmp::Ordering {
+    use core::cmp::Ordering::*;
+    let (m, e) = decompose(x);
+    let sx = m.signum();
+    let sn = num.signum();
+    if sx != sn {
+        return sx.cmp(&sn);
+    }
+    if sx == 0 {
+        return Equal;
+    }
+    // compare |m| * 2^e * den  vs  |num|
+    let l = U256::mul(m.unsigned_abs(), den as u128);
+    let r = U256 { hi: 0, lo: num.unsigned_abs() };
+    let mag = if e >= 0 {
+        match l.shl(e as u32) {
+            Some(l2) => l2.cmp(&r),
+            None => Greater,
+        }
+    } else {
+        match r.shl((-e) as u32) {
+            Some(r2) => l.cmp(&r2),
+            None => Less,
+        }
+    };
+    if sx > 0 {
+        mag
+    } else {
+        mag.reverse()
+    }
+}
+
+/// Is |x - num/den| <= n * ulp_ref, decided exactly (x +- n*ulp_ref are computed in f64; they are
+/// exactly representable whenever ulp_ref >= ulp(x), which is how callers choose ulp_ref).
+pub fn within_ulps(x: f64, num: i128, den: i128, ulp_ref: f64, n: f64) -> bool {
+    if !x.is_finite() {
+        return false;
+    }
+    let lo = x - n * ulp_ref;
+    let hi = x + n * ulp_ref;
+    cmp_float_rational(lo, num, den) != core::cmp::Ordering::Greater && cmp_float_rational(hi, num, den) != core::cmp::Ordering::Less
+}
+
+/// Approximate error in ulps (informational only; relative form, good to ~3 ulp).
+pub fn approx_err_ulps(x: f64, num: i128, den: i128, ulp_ref: f64) -> f64 {
+    let exact = num as f64 / den as f64;
+    if exact == 0.0 {
+        return x.abs() / ulp_ref;
+    }
+    (((x / exact) - 1.0) * exact / ulp_ref).abs()
+}
